@@ -464,21 +464,23 @@ class BufferAnalysis:
 
 
 def fill_postcondition(cls, fill_name):
-    """bytes guaranteed between buffer_ptr_ and buffer_end_ptr_ when FillBuffer returns normally:
-    1 if its body throws whenever no byte was obtained, else 0."""
+    """bytes guaranteed between buffer_ptr_ and buffer_end_ptr_ when the fill routine returns normally:
+    1 if every path that does not throw knows that at least one byte was obtained, else 0.
+    Decided on the routine's paths, so `if (n == 0) throw` and `if (n > 0) return; throw` are the same."""
     for name, fn in functions_in(cls):
         if name != fill_name:
             continue
-        body = body_of(fn)
-        # look for: if (<bytes_read / gcount> == 0) throw ...;   after the read
-        for n in walk(body):
-            if n.get("kind") == "IfStmt":
-                inner = n.get("inner", [])
-                c = txt(inner[0]).replace(" ", "")
-                throws = any(x.get("kind") == "CXXThrowExpr" for x in walk(inner[1]))
-                if throws and (c in ("bytes_read==0", "stream_.gcount()==0", "buffer_ptr_==buffer_end_ptr_", "FillBuffer()==0") or c.endswith("==0") and "read" in c):
-                    return 1
-        return 0
+        cp = CxxPaths({})
+        paths = cp.paths(fn)
+        ok_paths = [p for p in paths if p.outcome != "throw"]
+        if cp.overflow or not paths or not any(p.outcome == "throw" for p in paths):
+            return 0
+        for p in ok_paths:
+            if not p.knows_positive(("bytes_read", "gcount()", "FillBuffer()", "bytes_available", "buffer_end_ptr_ - buffer_ptr_")):
+                # or: buffer_ptr_ != buffer_end_ptr_
+                if not any(op == "!=" and {a.replace(" ", ""), b.replace(" ", "")} == {"buffer_ptr_", "buffer_end_ptr_"} for a, op, b in p.facts()):
+                    return 0
+        return 1
     return 0
 
 
@@ -919,6 +921,19 @@ class CxxPath:
 
     def knows_equal(self, marker, upto=None):
         return any(op == "==" and (marker in a or marker in b) for a, op, b in self.facts(upto))
+
+    def knows_positive(self, markers, upto=None):
+        """some quantity named by one of the markers is known to be > 0"""
+        zero, one = ("0", "0U", "0u"), ("1", "1U", "1u")
+        for a, op, b in self.facts(upto):
+            a2, b2 = a.replace(" ", ""), b.replace(" ", "")
+            for m in markers:
+                mm = m.replace(" ", "")
+                if mm in a2 and ((op in (">", "!=") and b2 in zero) or (op == ">=" and b2 in one)):
+                    return True
+                if mm in b2 and ((op in ("<", "!=") and a2 in zero) or (op == "<=" and a2 in one)):
+                    return True
+        return False
 
     def knows_zero(self, var, upto=None):
         for a, op, b in self.facts(upto):
